@@ -328,13 +328,21 @@ func (r *Report) Finish(minEvals int) int {
 		unknownOrder = append(unknownOrder, v.Key)
 	}
 
+	// every listed finding of this property is printed, with the number of times this run observed it (a finding
+	// that needs a particular schedule or crash point is not reproduced by every run)
 	var khKeys []string
+	for _, k := range kn {
+		id := k.raw + " :: " + k.what
+		if _, ok := knownHit[id]; !ok {
+			knownHit[id] = 0
+		}
+	}
 	for k := range knownHit {
 		khKeys = append(khKeys, k)
 	}
 	sort.Strings(khKeys)
 	for _, k := range khKeys {
-		fmt.Printf("KNOWN-FINDING: property=%s %s (observed %d times)\n", r.Property, k, knownHit[k])
+		fmt.Printf("KNOWN-FINDING: property=%s %s (observed %d times in this run)\n", r.Property, k, knownHit[k])
 	}
 
 	replayDir := filepath.Join(Root(), "out", "replay", r.Property)
